@@ -91,7 +91,12 @@ def run(ctx, rep):
                      'bodies from the expression generator (long cycles, diamonds, references at any depth)' % (K, len(cases), n_ex))
     for _ in range(ctx.n(1500, 60000)):
         names = ['n%d' % i for i in range(ctx.rng.randint(1, 6))]
+        if ctx.rng.random() < 0.3:
+            names[ctx.rng.randrange(len(names))] = 'default'      # the stock default-rule name is an ordinary rule name here
         cases.append(gen_graph(ctx.rng, names, ctx.rng.choice([0.0, 0.0, 0.1, 0.3])))
+    cases.append({'default': 'role:r0', 'a': 'rule:nope'})
+    cases.append({'default': 'rule:nope or role:r0 and role:r1'})
+    cases.append({'default': '@', 'a': 'not rule:nope', 'b': 'role:r0 and (rule:a or rule:zz)'})
     # diamonds must not be reported
     cases.append({'a': 'rule:b and rule:c', 'b': 'rule:d', 'c': 'rule:d', 'd': 'role:r0'})
     cases.append({'a': 'rule:b and rule:b', 'b': 'role:r0'})
@@ -132,7 +137,45 @@ def run(ctx, rep):
                                  {'rules': rules, 'name': n})
         rep.case(key=key, nontrivial=bool(und or cyc) or any('rule:' in t for t in rules.values()),
                  sample={'rules': rules, 'ok': ok, 'names': names} if len(rules) >= 3 and not ok else None)
+    _grown(ctx, rep)
     _validator(ctx, rep)
+
+
+def _grown(ctx, rep):
+    """The rule set an enforcer validates may have grown since the last validation: rules from a policy file first,
+    registered defaults merged in by a later load_rules().  check_rules() must judge the rule set as it is now."""
+    from .. import fsharness
+    n = 0
+    for _ in range(ctx.n(60, 2000)):
+        names = ['n%d' % i for i in range(ctx.rng.randint(2, 5))]
+        g = gen_graph(ctx.rng, names, ctx.rng.choice([0.0, 0.1]))
+        k = ctx.rng.randint(1, len(names) - 1)
+        file_part = {n_: g[n_] for n_ in names[:k]}
+        reg_part = [{'name': n_, 'check_str': g[n_]} for n_ in names[k:]]
+        w = fsharness.World(regs=[])
+        try:
+            w.write((None, None), file_part, 2, record=False)
+            e = w.new_enforcer(defaults=[])
+            e.load_rules()
+            first = e.check_rules()
+            for r in reg_part:
+                e.register_default(policy.RuleDefault(r['name'], r['check_str']))
+            e.load_rules()
+            got = e.check_rules()
+            und, cyc = analyse(g)
+            want = not und and not cyc
+            if got != want:
+                rep.fail('c13grown:%r|%d' % (sorted(g.items()), k),
+                         'rules %r loaded from a file (check_rules: %s), then %r registered and merged by load_rules(): check_rules() '
+                         'returns %s; the rule set now has undefined references in %r and cycles reachable from %r'
+                         % (file_part, first, [r['name'] for r in reg_part], got, und, cyc), {'file': file_part, 'registered': reg_part})
+            rep.stat('grown:%s' % ('clean' if want else 'dirty'))
+            rep.case(key='grown%r%d' % (sorted(g.items()), k), nontrivial=True)
+            n += 1
+        finally:
+            w.close()
+    rep.rules.append('%d rule sets that grow between two validations (part from a policy file, the rest registered afterwards and '
+                     'merged by load_rules)' % n)
 
 
 def _validator(ctx, rep):
